@@ -101,6 +101,8 @@ Classes ==
       C("terms_size_0", "any"), C("terms_sub_aggs", "any"),
       C("histogram_interval_0", "any"), C("histogram_interval_negative", "any"),
       C("histogram_interval_tiny", "any"), C("histogram_bounds_inverted", "any"),
+      C("histogram_bounds_saturated", "any"),       \* bounds beyond i64 after division by the interval (same bucket)
+      C("histogram_hard_bounds_saturated", "any"),
       C("histogram_bounds_wide", "any"),
       C("range_inverted", "any"), C("range_empty", "any"),
       C("date_histogram", "any"), C("date_histogram_bad_interval", "any"),
